@@ -16,9 +16,10 @@ PROPERTY = 'C18'
 LEVEL = 'exploration'
 CASE_GUARD_S = {'quick': 300, 'thorough': 3600}  # a case is a composite (a block of expressions x all texts, ...)
 CHUNK = 1
-RULE = ('seed corpus of ~170 valid instruction lines (every instruction of every phase, every form of every type) x every single mutation: delete token i, duplicate token i, swap tokens i,i+1, '
-        'replace token i by each of 40 troublesome tokens (parentheses, operators, quote characters, symbol references of every wrong type, ill-formed and extreme integers, regexes and '
-        'replacement strings that do not compile, globs, here-document and text-until-eol markers, unknown options, non-ASCII, control characters), truncation of the file at every character of the '
+RULE = ('seed corpus of ~140 valid instruction lines (every instruction of every phase, every form of every type) x every single mutation: delete token i, duplicate token i, swap tokens i,i+1, '
+        'replace token i by each of ~65 troublesome tokens (parentheses, operators, quote characters, symbol references of every wrong type, ill-formed and extreme integers incl. ones too large '
+        'to print and expressions raising every kind of exception, regexes and replacement strings that do not compile, globs, here-document and text-until-eol markers, unknown options, '
+        'non-ASCII, control characters, white space the tokenizer does not split at), truncation of the file at every character of the '
         'line, removal / addition of one quote character; thorough: also all pairs (replace token i, replace token j); non-trivial = the mutated case differs from the seed')
 ASSUMPTIONS = [
     'inputs whose evaluation cost is unbounded (e.g. 9**9**9 as an INTEGER, Python eval semantics) are not generated',
